@@ -388,7 +388,15 @@ def gen_pt(ctx, chans, depth_left, force=None, kinds=None):
             else:
                 inner.ints.discard(name)
         iforce = force
-        if force is not None:
+        if force is not None and rng.random() < 0.25:
+            # the mapping REBINDS the loop-index name to an expression of itself (round 3: name coincidence)
+            c, o = rng.choice([F(2), F(-1), F(1)]), rng.choice([F(0), F(1), F(-2)])
+            pm = [[a, b] for a, b in pm if a != force]
+            pm.append([force, ['+', ['*', V(force), C(c)], C(o)]] if rng.random() < 0.7 else [force, ['*', V(force), V(force)]])
+            inner.env[force] = None
+            inner.ints.add(force)
+            ctx.counter['idx_rebound'] = 1
+        elif force is not None:
             # the loop index must stay visible: route it through a mapped name (or keep it, if not shadowed)
             if force in [a for a, _ in pm] or rng.random() < 0.5:
                 name = ctx.fresh('m')
@@ -533,6 +541,8 @@ def gen_case(rng, max_depth=5, kinds=None, chan_choices=None):
     case = {'pt': pt, 'params': params, 'cm': cm}
     if ctx.counter.get('final_triple'):
         case['final_triple'] = True
+    if ctx.counter.get('idx_rebound'):
+        case['idx_rebound'] = True
     return case
 
 
